@@ -290,6 +290,123 @@ theorem map_eq_iff [DecidableEq V] {cmp : K → K → Ordering} (so : StrictOrde
   rw [AslProofs.Map.eq_true_iff]
   exact ⟨fun e => by subst e; intro k; rfl, AslProofs.Map.sorted_ext so ha hb⟩
 
+/-! ## converting constructors `Map<K,T>(const Map<K2,T2>&)`, `Dic<T>(const Map<K2,T2>&)`, `Dic<T>(const Dic<T2>&)` -/
+
+/-- the abstract result of converting the records `b` (in enumeration order) with key conversion `fk` and value
+conversion `fv`: `set` of every converted record into the empty finite map (a later record with the same
+converted key wins) -/
+def convSpec {K2 V2 : Type} (fk : K2 → K) (fv : V2 → V) (b : List (K2 × V2)) : FinMap K V :=
+  b.foldl (fun f kv => f.set (fk kv.1) (fv kv.2)) FinMap.empty
+
+/-- a fold of any insertion step that meets the `set` specification keeps the array strictly ascending and is the
+fold of `FinMap.set` — whatever `fk` does to the order or the distinctness of the keys, whatever list `b` is -/
+theorem fold_set_refines {K2 V2 : Type} {cmp : K → K → Ordering}
+    (stp : List (K × V) → K → V → Option (List (K × V)))
+    (hstp : ∀ {l : List (K × V)}, Sorted cmp l → ∀ key v, ∃ l', stp l key v = some l' ∧ Sorted cmp l' ∧
+      ∀ k, lookup k l' = if k = key then some v else lookup k l)
+    (fk : K2 → K) (fv : V2 → V) (b : List (K2 × V2)) :
+    ∀ {l : List (K × V)}, Sorted cmp l →
+    ∃ l', b.foldl (fun acc kv => match acc with
+        | none => none
+        | some a => stp a (fk kv.1) (fv kv.2)) (some l) = some l' ∧ Sorted cmp l' ∧
+      ∀ k, lookup k l' = b.foldl (fun (f : FinMap K V) kv => f.set (fk kv.1) (fv kv.2)) (fun k => lookup k l) k := by
+  induction b with
+  | nil => intro l hs; exact ⟨l, rfl, hs, fun _ => rfl⟩
+  | cons x t ih =>
+    intro l hs
+    obtain ⟨l1, h1, hs1, a1⟩ := hstp hs (fk x.1) (fv x.2)
+    obtain ⟨l2, h2, hs2, a2⟩ := ih hs1
+    refine ⟨l2, ?_, hs2, ?_⟩
+    · simp only [List.foldl_cons, h1]; exact h2
+    · intro k
+      have e : (fun k => lookup k l1) = FinMap.set (fun k => lookup k l) (fk x.1) (fv x.2) := by
+        funext y; rw [a1 y]; rfl
+      rw [a2 k, e]
+      rfl
+
+/-- every converted source key is present in the abstract result -/
+theorem convSpec_has {K2 V2 : Type} (fk : K2 → K) (fv : V2 → V) (b : List (K2 × V2)) :
+    ∀ (f : FinMap K V) (k : K), ((f k).isSome ∨ ∃ kv ∈ b, fk kv.1 = k) →
+      ((b.foldl (fun (f : FinMap K V) kv => f.set (fk kv.1) (fv kv.2)) f) k).isSome := by
+  induction b with
+  | nil => intro f k h; rcases h with h | ⟨kv, hm, _⟩
+           · exact h
+           · cases hm
+  | cons x t ih =>
+    intro f k h
+    simp only [List.foldl_cons]
+    apply ih
+    by_cases hk : k = fk x.1
+    · left; simp [FinMap.set, hk]
+    · rcases h with h | ⟨kv, hm, e⟩
+      · left; simp [FinMap.set, hk, h]
+      · rcases List.mem_cons.mp hm with e1 | e1
+        · subst e1; exact absurd e.symm hk
+        · right; exact ⟨kv, e1, e⟩
+
+/-- **the converting constructor builds a well-formed map, for ANY key conversion.**  `Map<K,T>(const Map<K2,T2>& b)`
+(and `Dic<T>(const Dic<T2>&)`, which goes through it) never fails, leaves the array strictly ascending — also when
+`fk` reverses or scrambles the order of the keys or maps several keys to one —, its abstract map is `convSpec`
+(set of every converted record, in order, into the empty map), the binary search on the result meets its
+specification for every key, and every converted source key is found (`has`), with the abstract value (`get`). -/
+theorem map_convert_refines {K2 V2 : Type} {cmp : K → K → Ordering} (so : StrictOrder cmp)
+    (fk : K2 → K) (fv : V2 → V) (b : List (K2 × V2)) :
+    ∃ l', Map.convert cmp fk fv b = some l' ∧ Sorted cmp l' ∧
+      (∀ k, lookup k l' = convSpec fk fv b k) ∧
+      (∀ key, ∃ r, Map.indexOf cmp l' key = some r ∧ IndexSpec cmp l' key r) ∧
+      (∀ kv ∈ b, Map.has cmp l' (fk kv.1) = some true) ∧
+      (∀ key dflt, Map.get cmp l' key dflt = some ((convSpec fk fv b key).getD dflt)) := by
+  obtain ⟨l', h1, hs', a⟩ := fold_set_refines (Map.set cmp) (fun hs key v => AslProofs.Map.set_spec so hs key v) fk fv b
+    (l := []) List.Pairwise.nil
+  have e0 : (fun k => lookup k ([] : List (K × V))) = (FinMap.empty : FinMap K V) := by funext k; rfl
+  rw [e0] at a
+  have a' : ∀ k, lookup k l' = convSpec fk fv b k := a
+  refine ⟨l', h1, hs', a', fun key => AslProofs.Map.indexOf_spec so l' key hs', ?_, ?_⟩
+  · intro kv hm
+    rw [AslProofs.Map.has_spec so hs', a]
+    have := convSpec_has fk fv b FinMap.empty (fk kv.1) (Or.inr ⟨kv, hm, rfl⟩)
+    rw [this]
+  · intro key dflt
+    rw [AslProofs.Map.get_spec so hs', a']
+
+/-- the same for `Dic<T>(const Map<K2,T2>& b)` (`(*this)[k] = v` per record) -/
+theorem dic_convert_refines {K2 V2 : Type} {cmp : K → K → Ordering} (so : StrictOrder cmp) (dflt : V)
+    (fk : K2 → K) (fv : V2 → V) (b : List (K2 × V2)) :
+    ∃ l', Map.convertDic cmp dflt fk fv b = some l' ∧ Sorted cmp l' ∧
+      (∀ k, lookup k l' = convSpec fk fv b k) ∧
+      (∀ key, ∃ r, Map.indexOf cmp l' key = some r ∧ IndexSpec cmp l' key r) ∧
+      Map.convert cmp fk fv b = some l' := by
+  obtain ⟨l', h1, hs', a⟩ := fold_set_refines (fun l k v => Map.assign cmp l k dflt v)
+    (fun hs key v => AslProofs.Map.assign_spec so hs key dflt v) fk fv b (l := []) List.Pairwise.nil
+  have e0 : (fun k => lookup k ([] : List (K × V))) = (FinMap.empty : FinMap K V) := by funext k; rfl
+  rw [e0] at a
+  have a : ∀ k, lookup k l' = convSpec fk fv b k := a
+  obtain ⟨l2, g1, gs, ga, _⟩ := map_convert_refines so fk fv b
+  refine ⟨l', h1, hs', a, fun key => AslProofs.Map.indexOf_spec so l' key hs', ?_⟩
+  rw [g1, AslProofs.Map.sorted_ext so gs hs' (fun k => by rw [ga k, a k])]
+
+/-- **a converted map `==` every well-formed map with the same contents**, e.g. the one built by inserting the
+converted records one by one in any order that gives the same finite map -/
+theorem map_convert_eq_same_contents [DecidableEq V] {K2 V2 : Type} {cmp : K → K → Ordering} (so : StrictOrder cmp)
+    (fk : K2 → K) (fv : V2 → V) (b : List (K2 × V2)) {l' m : List (K × V)}
+    (h : Map.convert cmp fk fv b = some l') (hm : Sorted cmp m) (hc : ∀ k, lookup k m = convSpec fk fv b k) :
+    Map.eq l' m = true := by
+  obtain ⟨l2, g1, gs, ga, _⟩ := map_convert_refines so fk fv b
+  rw [g1] at h
+  cases h
+  exact (map_eq_iff so gs hm).mpr (fun k => by rw [ga k, hc k])
+
+/-- non-vacuity: quarters 5/4 and 7/4 both truncate to key 1 (the later value wins), 14/4 to 3; and a conversion that
+reverses the order (negation) -/
+example : Map.convert Map.cmpInt (fun q : Int => Int.tdiv q 4) (fun v : Int => v) [(5, 10), (7, 20), (14, 30)]
+    = some [(1, 20), (3, 30)] := by decide
+example : Map.convert Map.cmpInt (fun q : Int => -q) (fun v : Int => v) [(1, 10), (2, 20), (3, 30)]
+    = some [(-3, 30), (-2, 20), (-1, 10)] := by decide
+example : Map.convertDic Map.cmpInt 0 (fun q : Int => Int.tdiv q 4) (fun v : Int => v) [(5, 10), (7, 20), (14, 30)]
+    = some [(1, 20), (3, 30)] := by decide
+example : (convSpec (fun q : Int => Int.tdiv q 4) (fun v : Int => v) [(5, 10), (7, 20), (14, 30)] : FinMap Int Int) 1 = some 20 := by
+  decide
+
 end Ordered
 
 /-! ## hash map (`HashMap`, `HashDic`) — for an arbitrary hash function -/
